@@ -19,13 +19,13 @@ pub fn linking(lang: &str) -> Vec<&'static str> {
 }
 pub fn fillers(lang: &str) -> Vec<&'static str> {
     match lang {
-        "de" => vec!["Kühe","Haus","der","eine","Liste","grün","Tisch","läuft","wir","Straße","4x4","Ⅷ","ǅ","7h30"],
-        "en" => vec!["cows","house","the","a","list","green","table","runs","we","street","o'clock","point","4x4","Ⅷ","ǅ","2nd","3D","five-star","one-way","nine-to-five"],
-        "es" => vec!["vacas","casa","el","la","lista","verde","mesa","corre","nosotros","calle","4x4","Ⅷ","ǅ","3º"],
-        "fr" => vec!["vaches","maison","le","du","l'","logement","numéro","vert","table","court","nous","rue","4x4","Ⅷ","ǅ","2ème","7h30","deux-pièces","trois-mâts"],
-        "it" => vec!["mucche","casa","il","la","lista","verde","tavolo","corre","noi","strada","4x4","Ⅷ","ǅ","3D"],
-        "nl" => vec!["koeien","huis","de","het","lijst","groen","tafel","loopt","wij","straat","4x4","Ⅷ","ǅ","2e"],
-        "pt" => vec!["vacas","casa","o","a","lista","verde","mesa","corre","nós","rua","4x4","Ⅷ","ǅ","meia","outra","vez","aí","está","tarde"],
+        "de" => vec!["heute","beste","Kühe","Haus","der","eine","Liste","grün","Tisch","läuft","wir","Straße","4x4","Ⅷ","ǅ","7h30"],
+        "en" => vec!["month","with","both","cows","house","the","a","list","green","table","runs","we","street","o'clock","point","4x4","Ⅷ","ǅ","2nd","3D","five-star","one-way","nine-to-five"],
+        "es" => vec!["último","próxima","vacas","casa","el","la","lista","verde","mesa","corre","nosotros","calle","4x4","Ⅷ","ǅ","3º"],
+        "fr" => vec!["dernier","janvier","vaches","maison","le","du","l'","logement","numéro","vert","table","court","nous","rue","4x4","Ⅷ","ǅ","2ème","7h30","deux-pièces","trois-mâts"],
+        "it" => vec!["medesimo","ultimo","mucche","casa","il","la","lista","verde","tavolo","corre","noi","strada","4x4","Ⅷ","ǅ","3D"],
+        "nl" => vec!["beste","aarde","koeien","huis","de","het","lijst","groen","tafel","loopt","wij","straat","4x4","Ⅷ","ǅ","2e"],
+        "pt" => vec!["último","próxima","vacas","casa","o","a","lista","verde","mesa","corre","nós","rua","4x4","Ⅷ","ǅ","meia","outra","vez","aí","está","tarde"],
         _ => panic!(),
     }
 }
@@ -42,6 +42,8 @@ pub fn vocab(lang: &str) -> Vocab {
         for n in [100u64, 1000, 1_000_000, 1_000_000_000, 200, 2000, 2_000_000, 3_000_000_000, 1100, 100_000] { for _ in 0..3 { let w = cardinal(lang, n, &mut r); put(4, w.into_iter().flat_map(|x| x.split('-').map(|y| y.to_string()).collect::<Vec<_>>()).collect()); } }
         for n in (1..=31).chain([40, 50, 60, 70, 80, 90, 100, 1000]) { for _ in 0..2 { if let Some((w, _)) = ordinal(lang, n, &mut r) { put(5, vec![w.last().unwrap().clone()]); } } }
         put(6, vec![zero_word(lang).to_string()]); if lang == "en" { put(6, vec![s("o"), s("nought")]); }
+        // published number words the ordinal spellers never emit on their own (time-unit homographs)
+        if lang == "es" || lang == "pt" { put(5, vec![s("segundo"), s("segundos")]); }
         // class 7: the Spanish '-avo' fraction words (rendered 1/n); other languages repeat their ordinals here
         if lang == "es" {
             for w in ["onceavo", "doceavo", "treceavo", "catorceavo", "quinceavo", "dieciochoavo", "veinteavo", "veintavo", "veinticincoavo", "treintavo", "cuarentavo", "cincuentavo", "sesentavo", "setentavo", "ochentavo", "noventavo", "centavo"] {
@@ -73,5 +75,5 @@ pub fn vocab(lang: &str) -> Vocab {
     if lang == "en" { set.insert("o".into()); }
     Vocab { classes, ord_class: 5, zero_class: 6, zeros, number_words: set.into_iter().collect(), linking: linking(lang), fillers: fillers(lang), conj: conjunction(lang), sep: decimal_sep(lang), conj_alts: if lang == "nl" { vec!["en", "ën"] } else { vec![conjunction(lang)] } }
 }
-pub const PUNCT: [&str; 14] = [",", ".", ";", ":", "!", "?", "-", "—", "'", "(", ")", "…", "...", "/"];
+pub const PUNCT: [&str; 16] = [",", ".", ";", ":", "!", "?", "-", "—", "'", "(", ")", "…", "...", "/", "\u{200b}", "\u{2060}"];
 pub const SPACES: [&str; 8] = [" ", " ", " ", "  ", "\t", "\n", "\u{a0}", "\u{2009}"];
